@@ -86,6 +86,11 @@ pub fn candidates(prop: &str) -> Vec<Value> {
                 v.push(json!({"call": "signcrypt", "group": g, "scheme": scheme_name(s), "kind": kind}));
             }}}
         }
+        "C13" => {
+            for g in ["G1", "G2"] { for s in schemes() { for kind in ["round_trip", "wrong_id", "wrong_key", "wrong_scheme", "identity_sig", "flip_u", "flip_v", "flip_w_prefix", "flip_padding", "extend_padding", "empty_w"] {
+                v.push(json!({"call": "timelock", "group": g, "scheme": scheme_name(s), "kind": kind}));
+            }}}
+        }
         "C10" => {
             for g in ["G1", "G2"] { for s in schemes() { for kind in ["complete", "other_challenge", "other_msg", "other_key", "tamper_u", "tamper_v", "ts_no_timeout", "ts_within", "ts_elapsed", "ts_altered", "ts_future", "ts_max"] {
                 v.push(json!({"call": "pok", "group": g, "scheme": scheme_name(s), "kind": kind}));
@@ -112,6 +117,7 @@ pub fn run(c: &Value) -> Option<String> {
         "aggregate" => by_group!(c, aggregate),
         "multi" => by_group!(c, multi),
         "pok" => by_group!(c, pok),
+        "timelock" => by_group!(c, timelock),
         "signcrypt" => by_group!(c, signcrypt),
         "codec" => by_group!(c, codec),
         "no_panic" => by_group!(c, no_panic),
@@ -455,4 +461,38 @@ fn signcrypt<C: BlsSignatureImpl + PartialEq + Copy>(c: &Value, keys: &[SecretKe
         _ => { t.v = vec![]; let _ = t.decrypt(sk); let _ = t.is_valid(); return None; }
     }
     if bool::from(t.is_valid()) || bool::from(t.decrypt(sk).is_some()) { Some(format!("{}: altered ciphertext still valid/decrypts", kind)) } else { None }
+}
+
+fn timelock<C: BlsSignatureImpl + PartialEq + Copy>(c: &Value, keys: &[SecretKey<C>]) -> Option<String> {
+    let s = scheme_of(&c["scheme"]);
+    let sk = &keys[3];
+    let pk = sk.public_key();
+    let kind = c["kind"].as_str().unwrap();
+    let id = b"epoch 42".to_vec();
+    let sig = sk.sign(s, &id).ok()?;
+    if kind == "round_trip" {
+        for l in (0..41usize).chain(100..141).chain([16383usize, 16384, 16385]) { for idv in [vec![], id.clone()] {
+            let m: Vec<u8> = (0..l).map(|i| (i * 13 + 5) as u8).collect();
+            let ct = match pk.encrypt_time_lock(s, &m, &idv) { Ok(c) => c, Err(e) => return Some(format!("encrypt failed: {}", e)) };
+            let sg = sk.sign(s, &idv).ok()?;
+            match Option::<Vec<u8>>::from(ct.decrypt(&sg)) { Some(p) if p == m => {}, Some(_) => return Some(format!("opens to another message (len {})", l)), None => return Some(format!("the signature over the identifier does not open the ciphertext (message length {}, id length {})", l, idv.len())) }
+        }}
+        return None;
+    }
+    let m = b"the launch codes".to_vec();
+    let ct = pk.encrypt_time_lock(s, &m, &id).ok()?;
+    let gp = <C as Pairing>::PublicKey::generator();
+    let opens_to = |ct: &TimeCryptCiphertext<C>, sg: &Signature<C>| Option::<Vec<u8>>::from(ct.decrypt(sg));
+    match kind {
+        "wrong_id" => if opens_to(&ct, &sk.sign(s, b"epoch 43").ok()?).is_some() { Some("signature over another identifier opens it".into()) } else { None },
+        "wrong_key" => if opens_to(&ct, &keys[4].sign(s, &id).ok()?).is_some() { Some("another key's signature opens it".into()) } else { None },
+        "wrong_scheme" => { for s2 in schemes() { if s2 != s { if opens_to(&ct, &sk.sign(s2, &id).ok()?).is_some() { return Some(format!("signature under {} opens a {} ciphertext", scheme_name(s2), scheme_name(s))); } } } None }
+        "identity_sig" => if opens_to(&ct, &mk::<C>(s, <C as Pairing>::Signature::identity())).is_some() { Some("identity signature opens it".into()) } else { None },
+        "flip_u" => { let mut t = ct.clone(); t.u = t.u + gp; if opens_to(&t, &sig).is_some() { Some("altered U still opens".into()) } else { None } }
+        "flip_v" => { for i in 0..32 { let mut t = ct.clone(); t.v[i] ^= 1; if opens_to(&t, &sig).is_some() { return Some(format!("bit flip in v[{}] still opens", i)); } } None }
+        "flip_w_prefix" => { for i in 0..(1 + m.len()) { let mut t = ct.clone(); t.w[i] ^= 0x10; if let Some(p) = opens_to(&t, &sig) { return Some(format!("bit flip in w[{}] (length prefix / message) opens to {:?}", i, p)); } } None }
+        "flip_padding" => { let mut t = ct.clone(); let n = t.w.len(); t.w[n - 1] ^= 1; match opens_to(&t, &sig) { Some(p) if p != m => Some("padding flip yields a DIFFERENT message".into()), _ => None } }
+        "extend_padding" => { let mut t = ct.clone(); t.w.push(7); match opens_to(&t, &sig) { Some(p) if p != m => Some("extension yields a DIFFERENT message".into()), _ => None } }
+        _ => { let mut t = ct.clone(); t.w = vec![]; let _ = opens_to(&t, &sig); None }
+    }
 }
